@@ -119,7 +119,7 @@ func (h *memHandle) ReadAt(p []byte, off int64) (int, error) {
 func (h *memHandle) WriteAt(p []byte, off int64) (int, error) {
 	if h.fs.failWrite {
 		h.fs.failWrite = false
-		return 0, errors.New("injected write error")
+		return 0, &injErr{"injected write error"}
 	}
 	var werr error
 	if h.fs.failShort {
@@ -145,7 +145,7 @@ func (h *memHandle) WriteAt(p []byte, off int64) (int, error) {
 func (h *memHandle) Sync() error {
 	if h.fs.failSync {
 		h.fs.failSync = false
-		return errors.New("injected sync error")
+		return &injErr{"injected sync error"}
 	}
 	return nil
 }
